@@ -75,6 +75,15 @@ func preludeFor(usedUF []string) string {
 	return b.String()
 }
 
+func anyQuant(ts []*Term) bool {
+	for _, t := range ts {
+		if hasQuant(t) {
+			return true
+		}
+	}
+	return false
+}
+
 // mentionsWf: some term mentions the record-structure predicates wfp/bnd
 func mentionsWf(ts []*Term) bool {
 	for _, n := range usedUFs(ts) {
@@ -242,6 +251,23 @@ func solve(o *Obligation, dir string, timeout int, keep bool) *SolveResult {
 				defer os.Remove(file)
 			}
 		}
+	}
+	// qi variant: the same full query with restrained quantifier instantiation (no model-based instantiation, lower
+	// eager threshold): decides goals with many nested quantified hypotheses (heap-order pairs) several times faster;
+	// only `unsat` is taken from it
+	if o.Goal != nil && hasQuant(o.Goal) || o.Goal != nil && anyQuant(o.Hyps) {
+		file := base + "." + solvers[0].name + ".smt2"
+		sp := solverSpec{name: "z3-new-5.1.0+qi", cmd: func(f string, t int) []string {
+			return []string{"z3-new", fmt.Sprintf("-T:%d", t), "smt.qi.eager_threshold=50", "smt.mbqi=false", f}
+		}}
+		go func() {
+			first, txt, d := runSolver(ctx, sp, file, timeout)
+			if first != "unsat" {
+				first = "unknown"
+			}
+			ch <- ans{first, txt, d, sp}
+		}()
+		pending++
 	}
 	// nowf variant: a goal that does not speak about record structure (wfp/bnd) is tried without the hypotheses that
 	// do (the wf rule instances drown frame-style goals in instantiations); dropping hypotheses is sound
